@@ -19,8 +19,10 @@ Trace == ndJsonDeserialize(IOEnv.TRACE_FILE)
 ASSUME TLCSet(3, <<>>)
 ASSUME TLCSet(4, <<>>)
 
-VARIABLES l, prev, roles, bad
-tvars == <<l, prev, roles, bad>>
+BN == INSTANCE BigNat
+
+VARIABLES l, prev, roles, reward, bad
+tvars == <<l, prev, roles, reward, bad>>
 
 SetOf(q) == {q[i] : i \in 1..Len(q)}
 HasFlag(flags, f) == (flags \div f) % 2 = 1
@@ -166,6 +168,24 @@ CEpochOutcomeApplied(e) ==
     ("lstep" \in DOMAIN e /\ e.lstep.kind = "epoch" /\ HasFlag(e.flags, ValidationFinishedFlag) /\ Alive(prev.cast.x.status)) =>
         LET want == NumOf(e.lstep.out) IN e.life.cast.x.status = (IF want = 5 THEN 0 ELSE want)
 
+\* a termination pays out at most the stake that is not locked, and only where the protocol pays at all: to the identity that
+\* terminates itself; to the pool when its delegator was Verified, Human, Suspended or Zombie (the stake of a delegator that
+\* was not verified yet is burnt); an inviter gets nothing.  (`reward`: what the block may pay its proposer / committee.)
+Gain(p0, p1, cap) == BN!Leq(p1.balL, BN!Add(BN!Add(p0.balL, cap), reward))
+FreeStakeCap(p0, p1, victim) == BN!Leq(BN!Add(p1.balL, victim.lockedL), BN!Add(BN!Add(p0.balL, victim.stakeL), reward))
+CTerminationPayout(pre, e) ==
+    \A j \in 1..Len(e.txs) :
+        LET t == e.txs[j] IN
+        CASE t.type = 3 /\ HasMember(pre, t.from) ->
+                 FreeStakeCap(MemberOf(pre, t.from), MemberOf(e.life, t.from), MemberOf(pre, t.from))
+          [] t.type = 20 /\ HasMember(pre, t.from) /\ HasMember(pre, t.to) /\ t.from # t.to ->
+                 IF MemberOf(pre, t.to).status \in {3, 8, 4, 6}
+                 THEN FreeStakeCap(MemberOf(pre, t.from), MemberOf(e.life, t.from), MemberOf(pre, t.to))
+                 ELSE Gain(MemberOf(pre, t.from), MemberOf(e.life, t.from), <<>>)
+          [] t.type = 10 /\ HasMember(pre, t.from) /\ t.from # t.to ->
+                 Gain(MemberOf(pre, t.from), MemberOf(e.life, t.from), <<>>)
+          [] OTHER -> TRUE
+
 \* the identity-update block that applies an offline penalty turns the penalised identity offline
 CPenaltyTurnsOffline(pre, e) ==
     \A m \in Members(pre) :
@@ -184,6 +204,7 @@ Clauses(pre, e) ==
     \cup If(CEpochOutcomeApplied(e), "EpochOutcomeApplied")
     \cup If(CNamedEffect(pre, e), "NamedEffect")
     \cup If(CPenaltyTurnsOffline(pre, e), "PenaltyTurnsOffline")
+    \cup If(CTerminationPayout(pre, e), "TerminationPayout")
 
 (* ---------------------------------------------------------------------------------------------------------- *)
 (* (b) drift                                                                                                   *)
@@ -230,12 +251,12 @@ StepDrift(pre, e) ==
     /\ DriftIf(Final(e) /\ PathDiff(OfPath(st.post), s1) # {}, "path-state", <<where, PathDiff(OfPath(st.post), s1)>>)
 
 (* ---------------------------------------------------------------------------------------------------------- *)
-TraceInit == l = 1 /\ prev = <<>> /\ roles = <<>> /\ bad = {}
+TraceInit == l = 1 /\ prev = <<>> /\ roles = <<>> /\ reward = <<>> /\ bad = {}
 
 IsLife(e) == "life" \in DOMAIN e
 
 TGenesis == /\ l <= Len(Trace) /\ Trace[l].ev = "Genesis" /\ IsLife(Trace[l]) /\ l' = l + 1
-            /\ prev' = Trace[l].life /\ roles' = Trace[l].roles
+            /\ prev' = Trace[l].life /\ roles' = Trace[l].roles /\ reward' = Trace[l].blockReward
             /\ Note(If(CValidatedIffStatus(Trace[l].life), "ValidatedIffStatus")
                     \cup If(COnlineOnlyValidatedOrPool(Trace[l].life), "OnlineOnlyValidatedOrPool")
                     \cup If(CDeadOwnsNothing(Trace[l].life), "DeadOwnsNothing"))
@@ -245,10 +266,10 @@ TBlock == /\ l <= Len(Trace) /\ Trace[l].ev = "Block" /\ ~Trace[l].refused /\ Is
              /\ Note(Clauses(prev, e))
              /\ ("lstep" \in DOMAIN e => StepDrift(prev, e))
              /\ prev' = e.life
-          /\ UNCHANGED roles
+          /\ UNCHANGED <<roles, reward>>
 
 TOther == /\ l <= Len(Trace) /\ ~(Trace[l].ev \in {"Genesis", "Block"} /\ IsLife(Trace[l]) /\ (Trace[l].ev = "Block" => ~Trace[l].refused))
-          /\ l' = l + 1 /\ UNCHANGED <<prev, roles, bad>>
+          /\ l' = l + 1 /\ UNCHANGED <<prev, roles, reward, bad>>
 
 TraceNext == TGenesis \/ TBlock \/ TOther
 TraceSpec == TraceInit /\ [][TraceNext]_tvars
